@@ -1,3 +1,8 @@
+CONSTANTS
+  ReqAlphabet = {}
+  RespAlphabet = {}
+  MaxLen = 0
+  Bug = "none"
 SPECIFICATION TraceSpec
 CONSTRAINT HWM
 POSTCONDITION Post
